@@ -315,7 +315,7 @@ func vpC34FP(b []byte) string {
 }
 
 // vpC34Twins lists the mutated variants derived from one valid update.
-var vpC34TwinKinds = []string{"swap-adjacent", "swap-any", "dup-custodian-spend", "dup-payee-spend", "payee-is-other-custodian", "payee-is-own-custodian",
+var vpC34TwinKinds = []string{"swap-adjacent", "swap-any", "dup-custodian-spend", "dup-payee-spend", "payee-is-other-custodian", "payee-is-own-custodian", "payee-spend-is-own-custodian-spend", "custodian-spend-is-own-payee-spend",
 	"dup-view-only", "flip-action", "flip-custodian-spend", "flip-custodian-view", "flip-payee-spend", "flip-payee-view", "flip-node-id",
 	"flip-signer-sig", "flip-payee-sig", "flip-custodian-sig", "flip-header", "flip-approval", "flip-anywhere-unsigned", "swap-payee-custodian-sigs",
 	"wrong-approver-new", "wrong-approver-random", "approval-over-wrong-message", "count-6", "trailing-bytes", "trailing-entry-zero", "truncated",
@@ -379,7 +379,7 @@ func vpC34Twin(t *rapid.T, cs *vpC34Case, kind string, amount Integer) *Transact
 			es[i], es[j] = es[j], es[i]
 		}
 		return vpC34Tx(vpC34Extra(cs.NewAddr, es, approver), amount)
-	case "dup-custodian-spend", "dup-payee-spend", "payee-is-other-custodian", "payee-is-own-custodian", "dup-view-only":
+	case "dup-custodian-spend", "dup-payee-spend", "payee-is-other-custodian", "payee-is-own-custodian", "payee-spend-is-own-custodian-spend", "custodian-spend-is-own-payee-spend", "dup-view-only":
 		nodes := cloneNodes()
 		i, j := pick2()
 		switch kind {
@@ -391,6 +391,15 @@ func vpC34Twin(t *rapid.T, cs *vpC34Case, kind string, amount Integer) *Transact
 			nodes[j].Payee = nodes[i].Custodian
 		case "payee-is-own-custodian":
 			nodes[j].Payee = nodes[j].Custodian
+		case "payee-spend-is-own-custodian-spend":
+			// same spend key, another view key: the two addresses differ as text
+			view := nodes[i].Payee
+			nodes[j].Payee = nodes[j].Custodian
+			nodes[j].Payee.PrivateViewKey, nodes[j].Payee.PublicViewKey = view.PrivateViewKey, view.PublicViewKey
+		case "custodian-spend-is-own-payee-spend":
+			view := nodes[i].Custodian
+			nodes[j].Custodian = nodes[j].Payee
+			nodes[j].Custodian.PrivateViewKey, nodes[j].Custodian.PublicViewKey = view.PrivateViewKey, view.PublicViewKey
 		case "dup-view-only":
 			nodes[j].Payee.PrivateViewKey = nodes[i].Payee.PrivateViewKey
 			nodes[j].Payee.PublicViewKey = nodes[i].Payee.PublicViewKey
